@@ -319,10 +319,12 @@ class Intervals:
         for pb, v in fa.phi_operands(t):
             if v is t:
                 continue
-            # accumulator: v = t + d (checked) on a back edge
-            if v.op == "bin" and v.args[0] == "Add" and (v.args[1] is t or v.args[2] is t) and v in CHECKED:
-                d = v.args[2] if v.args[1] is t else v.args[1]
-                deltas.append((pb, d))
+            # accumulator: v = t + d (checked) on a back edge, possibly through inner phis (conditional increments)
+            dl = self._delta_of(v, t, pb, 0)
+            if dl is not None and dl != "self":
+                deltas.extend(dl)
+                continue
+            if dl == "self":
                 continue
             iv = self.interval(v, pb, depth + 1)
             if iv is None:
@@ -336,18 +338,43 @@ class Intervals:
             body = fa.fn.loops().get(h)
             tb = looptools.trip_bound(fa.fn, fa, self, h, body) if body else None
             lo, hi = acc
+            dlo = dhi = 0
             for pb, d in deltas:
                 di = self.interval(d, pb, depth + 1)
                 if di is None:
                     return rng
-                if tb is None:
-                    lo = lo if di[0] >= 0 else rng[0]
-                    hi = hi if di[1] <= 0 else rng[1]
-                else:
-                    lo += min(0, di[0]) * tb
-                    hi += max(0, di[1]) * tb
+                # one header phi <- one latch value per iteration: the deltas are alternatives (paths of one iteration)
+                # unless they are chained; chained increments appear as Add(Add(t,d1),d2) and are not matched here
+                dlo = min(dlo, di[0])
+                dhi = max(dhi, di[1])
+            if tb is None:
+                lo = lo if dlo >= 0 else rng[0]
+                hi = hi if dhi <= 0 else rng[1]
+            else:
+                lo += dlo * tb
+                hi += dhi * tb
             return meet((lo, hi), rng)
         return acc
+
+    def _delta_of(self, v, t, pb, depth):
+        """If v == t: 'self'.  If v == t + d or a phi over such values: list of (block, delta term) (0 deltas omitted)."""
+        if v is t:
+            return "self"
+        if depth > 4:
+            return None
+        if v.op == "bin" and v.args[0] == "Add" and v in CHECKED and (v.args[1] is t or v.args[2] is t):
+            d = v.args[2] if v.args[1] is t else v.args[1]
+            return [(pb, d)]
+        if v.op == "phi" and v is not t:
+            out = []
+            for qb, w in self.fa.phi_operands(v):
+                r = self._delta_of(w, t, qb, depth + 1)
+                if r is None:
+                    return None
+                if r != "self":
+                    out.extend(r)
+            return out if out else "self"
+        return None
 
     # -------- refinement by dominating facts
     def _refine(self, t, b, iv, depth):
